@@ -36,7 +36,7 @@ def step_line(step):
     k, p, v = step
     if p == "b":
         sv = "1" if v else "0"
-    elif p in ("i", "u"):
+    elif p in ("i", "u", "m1", "m2"):
         sv = str(v)
     elif p == "s":
         sv = exe.hexs(v)
@@ -45,16 +45,16 @@ def step_line(step):
     return "C %d %s %s" % (k, p, sv)
 
 
-def history(rng, w, n):
+def history(rng, w, n, multi=False):
     out = []
     for _ in range(n):
         k = rng.choice([0, 1, 2, 0, 1])
-        p = rng.choice(["b", "i", "u", "s", "next", "next", "i"])
+        p = rng.choice(["b", "i", "u", "s", "next", "next", "i"] + (["m2"] * 6 if multi else []))
         if rng.random() < 0.1:
             v = w[k][p]                 # setting the same value again: no signal
         elif p == "b":
             v = not w[k]["b"]
-        elif p == "i":
+        elif p in ("i", "m2"):
             v = rng.choice(exe.INTS)
         elif p == "u":
             v = rng.choice(exe.UINTS)
@@ -211,6 +211,7 @@ def run(ctx):
                 if bad:
                     break
     shutil.rmtree(work, ignore_errors=True)
+    shared_notify(ctx, vh, rng, nsteps)
     ctx.coverage["target_values_compared"] = ncmp
     ctx.coverage["skipped_undefined"] = nskip
     ctx.coverage["histories_per_document"] = nhist
@@ -220,3 +221,75 @@ def run(ctx):
                             "variables; 8 bindings per document; per document %d histories of %d steps over a/b/sub x {b, i, u, s, next} with boundary values, re-pointing "
                             "(incl. cycles) and nulling of next, and no-op changes; all targets compared after setup() and after every step; plus 7 unobservable/constant reads"
                             % (nhist, nsteps))
+
+
+def shared_notify(ctx, vh, rng, nsteps):
+    """bindings ON the objects a / b whose target (m1) and a property they read (m2) are announced by the SAME notify signal of the SAME object -- as
+    `visible: act.enabled` on a QAction.  Release semantics (QT_NO_DEBUG): the target must follow every change.  With the debug-build guard the update
+    function is re-entered through the target's own notify signal: the listed finding F24."""
+    def m2(o):
+        return ("member", ("ident", o), "m2")
+    shapes = [("a", m2("a")), ("a", ("ident", "m2")), ("b", ("binary", "&", m2("b"), ("int", 1023))), ("a", ("binary", "^", m2("a"), ("member", ("ident", "b"), "i"))),
+              ("b", ("ternary", ("member", ("ident", "a"), "b"), m2("b"), ("member", ("ident", "a"), "m2"))),
+              ("a", ("binary", "|", ("binary", "&", m2("a"), ("int", 255)), ("binary", "&", ("member", ("ident", "sub"), "i"), ("int", 3))))]
+    work = os.path.join(C.BUILD, "c02m")
+    shutil.rmtree(work, ignore_errors=True)
+    docs = []
+    for k, (o, e) in enumerate(shapes):
+        pr = ("binding_expr", e)
+        src = prog.qml_program(pr)
+        docs.append((o, pr, src, cxx.document([(o, "m1", src)])))
+    res = qml.run_docs(vh, [d[3] for d in docs])
+    objects = [("root", "VObj")] + cxx.OBJECT_DECLS
+    jobs = []
+    for k, ((o, pr, src, doc), r) in enumerate(zip(docs, res)):
+        ctx.count(("shared-notify", src), True)
+        if not isinstance(r, dict) or not r.get("header") or r["has_error"]:
+            ctx.violation("a binding reading a property of its own object is rejected: %s" % str(r.get("diags") if isinstance(r, dict) else r)[:300], {"qml": doc})
+            continue
+        jobs.append((k, o, pr, src, doc, r["header"]))
+    ncmp = 0
+    loops = 0
+    for mode in ("release", "debug"):
+        for (k, o, pr, src, doc, header) in jobs:
+            d = os.path.join(work, "%s%d" % (mode, k))
+            rc, err = exe.build(d, objects, header, [], [], targets=[(o, "m1")], defines=(["QT_NO_DEBUG"] if mode == "release" else []))
+            if rc != 0:
+                ctx.violation("the support header does not compile: %s" % err[:300], {"qml": doc, "impl_output": header})
+                continue
+            w0 = exe.world(rng)
+            steps = history(rng, w0, nsteps, multi=True)
+            ws = [w0]
+            for st in steps:
+                ws.append(apply_step(ws[-1], st))
+            outs = C.coq_eval_terms("c02m_%s%d" % (mode, k), HDR, ["map (fun w => show_res (run_binding NAMES %d%%nat w \"m1\" %s)) %s" % (exe.NAMES.index(o), prog.coq_program(pr), C.coq_list([exe.coq_world(w) for w in ws]))], scope="Z_scope", timeout=600)
+            want = re.findall(r'"([^"]*)"', outs[0]) if outs else []
+            if len(want) != nsteps + 1:
+                ctx.broke("K", "model/Sem.v evaluation", "the reference evaluator gave no result list for a shared-notify binding: %s" % (outs[0][:400] if outs else ""))
+                return
+            script = [exe.world_line(w0), "S", "T"]
+            for st in steps:
+                script += [step_line(st), "T"]
+            got, rcode, tail = exe.run_script(d, script)
+            dumps = [got[j] for j in range(len(got)) if j >= 2 and (j - 2) % 2 == 0]
+            if mode == "debug" and len(dumps) < nsteps + 1 and any("binding loop detected" in t for t in tail if t):
+                loops += 1
+                continue
+            for si in range(nsteps + 1):
+                have = dumps[si].split()[0] if si < len(dumps) else "<the process stopped (exit %s): %s>" % (rcode, " ".join(t for t in tail if t)[-300:])
+                ncmp += 1
+                if have != want[si]:
+                    ctx.violation("after %s the bound property holds %s but the expression is worth %s in the current state (%s build)"
+                                  % ("setup()" if si == 0 else "step %d (%s)" % (si, step_line(steps[si - 1])), have, want[si], mode),
+                                  {"qml": doc, "binding": "%s.m1: %s" % (o, src), "initial_world": {exe.NAMES[q]: w0[q] for q in range(4)}, "history": [step_line(x) for x in steps[:si]],
+                                   "impl_output": have, "oracle_output": want[si], "theorem_or_correspondence": "C02 (the property itself): a target and a read property sharing one notify signal"})
+                    break
+    if loops:
+        kc = ctx.known_classes()
+        if "update_reentered_through_shared_notify_signal" in kc:
+            ctx.known_finding("update_reentered_through_shared_notify_signal", kc["update_reentered_through_shared_notify_signal"]["what_fails"] + " (%d of %d bindings in this run)" % (loops, len(jobs)))
+        else:
+            ctx.violation("a binding whose target shares its notify signal with a property it reads aborts with 'binding loop detected' in a debug build", {"qml": jobs[0][4]})
+    ctx.coverage["shared_notify_values_compared"] = ncmp
+    ctx.coverage["shared_notify_debug_guard_aborts"] = loops
+    shutil.rmtree(work, ignore_errors=True)
